@@ -9,7 +9,7 @@ import hash_cfg
 
 ALGOS = hash_cfg.ALGOS
 DRIVERS = [("hash", "Hash")]
-CORPUS = os.path.join(vlib.VERIF, "seeded", "hash_corpus.json")
+CORPUS = os.path.join(vlib.VERIF, "corpus", "hash_corpus.json")
 
 _cfg = None
 
@@ -82,7 +82,7 @@ def seg_len(rng, B, cap=None):
     mixed 70/30 with uniform lengths"""
     if rng.below(10) < 7:
         k = 1 + rng.below(4)
-        pool = [0, 1, B - 1, B, B + 1, 2 * B - 1, 2 * B, k * B + rng.below(B), k * B, B // 2, B - 9, B - 8, B - 17, B - 16]
+        pool = [0, 1, B - 1, B, B + 1, 2 * B - 1, 2 * B, k * B + rng.below(B), k * B, B // 2, B - 9, B - 8, B - 7, B - 17, B - 16, B - 15]
         n = rng.choice(pool)
     else:
         n = rng.below(3 * B + 2)
@@ -270,6 +270,29 @@ def gen_inflight(rng, algo, family, mode):
     return {"algo": algo, "fam": family, "mode": mode, "nctx": n + 3, "tmo": 20, "ops": ops, "aim": "inflight-resubmit"}
 
 
+def gen_padcases(rng, algo, family, mode):
+    """deterministic coverage of the padding case split: one context per residue of the TOTAL
+    length modulo the block size in {B-F-2, B-F-1, B-F, B-F+1, B-1, 0, 1} (F = size of the length
+    field: the padding fits the last block up to B-F-1 and spills into a second block from B-F),
+    total = residue + k*B, each total cut into 1-4 segments at random (empty segments allowed)"""
+    B = block(algo)
+    F = cfg()["algos"][algo]["lenfld"]
+    residues = [B - F - 2, B - F - 1, B - F, B - F + 1, B - 1, 0, 1]
+    streams = []
+    for c, r in enumerate(residues):
+        total = r + rng.below(3) * B
+        nseg = 1 + rng.below(4)
+        cuts = sorted(rng.below(total + 1) for _ in range(nseg - 1))
+        lens = [b - a for a, b in zip([0] + cuts, cuts + [total])]
+        if nseg == 1:
+            fl = [3]
+        else:
+            fl = [1] + [0] * (nseg - 2) + [2]
+        streams.append(["A%d,%x,%d,%s,%x" % (c, f, l, place(rng), rng.next() & 0xffffffffffff) for f, l in zip(fl, lens)])
+    ops = sprinkle_flush(rng, interleave(rng, streams), [0, 5][rng.below(2)])
+    return {"algo": algo, "fam": family, "mode": mode, "nctx": len(residues), "tmo": 20, "ops": ops + ["D"], "aim": "pad-residues"}
+
+
 def gen_reject(rng, algo, family, mode):
     """the malformed stream: a valid history with rejected submits injected at random points:
     bad flags (any value with a bit outside FIRST|LAST), a submit on a context that is in
@@ -345,12 +368,16 @@ def wrapper_pairs():
 def gen_cases(rng, n_per_pair, profile, wrapper_share=35, only=None):
     """n_per_pair histories for every (algo, family); profile = {"mix": w, "occ": w, "reject": w}"""
     out = []
-    kinds = [k for k, w in profile.items() for _ in range(w)]
+    kinds = [k for k, w in profile.items() if k != "pad_fixed" for _ in range(w)]
     for algo, family in pairs():
         if only and (algo, family) not in only:
             continue
         f = fam(algo, family)
         occ_cycle = 0
+        # the padding residues are covered in every run for every pair, not by chance
+        for i in range(max(2, n_per_pair // 8) if profile.get("pad_fixed") else 0):
+            mode = "W" if i % 3 == 2 and wrapper_pairs().get((algo, family)) == "ok" else "D"
+            out.append(gen_padcases(rng, algo, family, mode))
         for i in range(n_per_pair):
             mode = "W" if rng.below(100) < wrapper_share else "D"
             if mode == "W" and wrapper_pairs().get((algo, family)) != "ok":
@@ -360,6 +387,8 @@ def gen_cases(rng, n_per_pair, profile, wrapper_share=35, only=None):
                 c = gen_mix(rng, algo, family, mode)
             elif k == "inflight":
                 c = gen_inflight(rng, algo, family, mode)
+            elif k == "pad":
+                c = gen_padcases(rng, algo, family, mode)
             elif k == "occ":
                 # every occupancy value 0..lanes is visited in turn
                 c = gen_occupancy(rng, algo, family, mode, target=occ_cycle % (f["lanes"] + 1))
@@ -814,7 +843,14 @@ def corpus_cases(only_pairs=None):
 
 def replay_case(path):
     r = json.load(open(path))["replay"]
-    return {"algo": r["algo"], "fam": r["fam"], "mode": r["mode"], "nctx": r["nctx"], "tmo": 60, "ops": r["ops"], "aim": "replay"}
+    big = any(o[0] in "BV" for o in r["ops"])
+    c = {"algo": r["algo"], "fam": r["fam"], "mode": r["mode"], "nctx": r["nctx"], "tmo": 1500 if big else 60, "ops": r["ops"], "aim": "replay"}
+    for o in r["ops"]:
+        if o[0] == "B":
+            a = o[1:].split(",")
+            c["long"] = (int(a[1]), int(a[2]), int(a[3], 16))
+            c["T"] = 0
+    return c
 
 
 ASSUMPTIONS = [
@@ -846,7 +882,8 @@ def gen_inject(rng, algo, family, mode, T):
     cseed = rng.next() & 0xffffffffffff
     ops, streams = [], []
     for c in range(nctx):
-        plen = rng.choice([0, 1, B - 1, B - 8, B - 9, B - 16, B - 17, B // 2, rng.below(B)]) % B
+        F = cfg()["algos"][algo]["lenfld"]
+        plen = rng.choice([0, 1, B - 1, B - F - 1, B - F, B - F + 1, B - F - 2, B // 2, rng.below(B)]) % B
         ops.append("J%d,%x,%d,%x" % (c, pre + plen, plen, cseed))
         segs = [(0, seg_len(rng, B)) for _ in range(rng.below(4))]
         # make sure the running total passes T (k blocks away) in most cases
